@@ -63,11 +63,13 @@ def replay_creator(model, q):
         problems = []
         for d in range(3):
             acc = 0.0
+            x0 = node.children[0].value.position[d]
             for ch in node.children:
                 x = ch.value.position[d]
-                x += BOX * round((root[d] - x) / BOX)
+                x += BOX * round((x0 - x) / BOX)          # nearest image relative to the first point mass
                 acc += x / len(node.children)
-            if abs(acc - root[d]) > 1e-9:
+            diff = (acc - root[d]) / BOX
+            if abs(diff - round(diff)) * BOX > 1e-9 or not all(0 <= c < BOX for c in root):
                 problems.append("component %d: barycentre %r, composite position %r" % (d, acc, root[d]))
         if problems:
             return {"reproduced": True, "what": "DipoleRandomNodeCreator centre %s direction %s: %s"
@@ -117,13 +119,15 @@ def explore_creator(kind):
             Ls = symx.realval(BOX)
             conds = []
             for d in range(3):
+                # nearest images of the point masses relative to the FIRST point mass (the molecule is compact: its
+                # extent is far below L/2), barycentre of those, compared with the stored position modulo the box
                 acc = z3.RealVal(0)
                 for kpos in kids:
                     k = z3.Int(ex.fresh_name("img"))
-                    ex.axiom(z3.And(kpos[d] + z3.ToReal(k) * Ls - root[d] > -Ls / 2,
-                                    kpos[d] + z3.ToReal(k) * Ls - root[d] <= Ls / 2))
+                    ex.axiom(z3.And(kpos[d] + z3.ToReal(k) * Ls - kids[0][d] > -Ls / 2,
+                                    kpos[d] + z3.ToReal(k) * Ls - kids[0][d] <= Ls / 2))
                     acc = acc + (kpos[d] + z3.ToReal(k) * Ls) / n
-                conds.append(acc == root[d])
+                conds.append(jf.zmod_eq(acc, root[d], Ls))
             ex.oblige("created-composite-position-is-the-barycentre-of-its-point-masses", z3.And(*conds))
             ex.oblige("children-and-root-in-the-box",
                       z3.And(*[z3.And(c >= 0, c < Ls) for p in kids + [root] for c in p]))
